@@ -21,6 +21,7 @@ from __future__ import annotations
 
 import copy
 import dataclasses
+import gc
 import hashlib
 import inspect
 import itertools
@@ -1107,6 +1108,8 @@ def bfs(subject: Subject, on_edge: Callable[[Edge], None], prepare=None, on_clon
                 while script is not None:
                     e = drive_edge(subject, parent, name, args, prepare, on_clone, script=script, step=stats["edges"])
                     stats["edges"] += 1
+                    if stats["edges"] % 64 == 0:
+                        gc.collect()  # evolvable modules are reference cycles (instance-bound method wrappers)
                     stats["draw_sequences"] += 1 if e.arity else 0
                     on_edge(e)
                     if e.post_flat is not None and e.call_exc is None:
@@ -1158,6 +1161,8 @@ def random_walk(subject: Subject, steps: int, seed: int, on_edge: Callable[[Edge
         return name, args
 
     for step in range(steps):
+        if step % 8 == 7:
+            gc.collect()  # evolvable modules are reference cycles; keep the worker's memory flat
         e = drive_edge(subject, m, None, {}, prepare, on_clone, step=step, pick=pick)
         if e.clone_exc is None and e.called is None:
             stats["aborted"] = "no mutation methods"
